@@ -2690,8 +2690,9 @@ coap_handle_request_send_block(coap_session_t *session,
                                             &block)) {
       goto internal_issue;
     }
+    /* Also for the block that goes out as the response itself */
+    coap_ticks(&lg_xmit->last_sent);
     if (i + 1 < request_cnt) {
-      coap_ticks(&lg_xmit->last_sent);
       coap_send_internal(session, out_pdu);
     }
   }
